@@ -184,6 +184,15 @@ def run(ctx):
         cases.append(('ins', kind, t, tr))
         if i % 2 == 1:
             cases.append(('bigins', str(i // 2 % 8), t, tr))
+        if i % 3 == 0:
+            # larger collections: 5-7 insertions in an order that puts late elements into interior gaps (a positional insertion routine is
+            # only exercised once the collection is longer than three)
+            more = list(tr) + list(G.gen_triple(rng, t)) + ([G.gen_triple(rng, t)[1]] if i % 2 else [])
+            order = sorted(range(len(more)), key=lambda j: (j % 2, -j if i % 4 else j))      # evens first, then the odd positions
+            vals2 = tuple(more[j] for j in order)
+            cases.append(('ins', kind, t, vals2))
+            if i % 6 == 0:
+                cases.append(('bigins', str(i % 8), t, vals2[:5]))
 
     lines = []
     for op, kind, t, vals in cases:
